@@ -113,6 +113,11 @@ func genC20Calls(t *rapid.T, s *c20Shared, n int) []c20Call {
 			}})
 		case "apply-create", "apply-update":
 			rec, upd := genNoncedKey(t, p, "rec"), genNoncedKey(t, p, "upd")
+			if kind == "apply-update" && rapid.Bool().Draw(t, "freshSigner") {
+				// a key this process has never verified with: whatever a component remembers per key is first written in the
+				// concurrent phase
+				upd = genFreshKey(t, rapid.SampledFrom([]keyType{ktP256, ktSecp256k1, ktP384, ktEd25519}).Draw(t, "freshType"))
+			}
 			if rec.Commitment(18) == upd.Commitment(18) {
 				upd = otherKey(t, rec)
 			}
@@ -308,16 +313,21 @@ func TestC20_SharedComponents(t *testing.T) {
 		calls := genC20Calls(t, s, ncalls)
 		procs := rapid.SampledFrom([]int{1, 2, 4, 16}).Draw(t, "gomaxprocs")
 		workers := rapid.SampledFrom([]int{2, 4, 8, 16}).Draw(t, "goroutines")
-		// sequential reference results
+		// sequential reference results - computed before the concurrent phase, or (so that nothing is warmed up by them) after it
 		want := make([]string, len(calls))
-		for i, c := range calls {
-			want[i] = c.run()
+		referenceFirst := rapid.Bool().Draw(t, "referenceFirst")
+		if referenceFirst {
+			for i, c := range calls {
+				want[i] = c.run()
+			}
 		}
 		atomic.StoreInt32(&s.maxOverlap, 0)
 		runtime.GOMAXPROCS(procs)
 		rounds := 2
+		var results [][]string
 		for r := 0; r < rounds; r++ {
 			got := make([]string, len(calls))
+			results = append(results, got)
 			order := rapid.Permutation(indices(len(calls))).Draw(t, "order")
 			var wg sync.WaitGroup
 			start := make(chan struct{})
@@ -334,6 +344,13 @@ func TestC20_SharedComponents(t *testing.T) {
 			}
 			close(start)
 			awaitWorkers(t, &wg, "C20 shared components")
+		}
+		if !referenceFirst {
+			for i, c := range calls {
+				want[i] = c.run()
+			}
+		}
+		for _, got := range results {
 			for i := range calls {
 				if got[i] != want[i] {
 					t.Fatalf("C20 concurrent %s call returned another result than sequentially (GOMAXPROCS=%d, %d goroutines, %d calls)\n concurrent %s\n sequential %s",
